@@ -86,9 +86,15 @@ func init() {
 	cache := map[string]*decl.Decl{}
 	body := func(c *explore.Ctx) {
 		li := c.Choose(len(layouts))
-		if li == 0 && c.Bool() {
-			c10TwoStructs(c)
-			return
+		if li == 0 {
+			switch c.Choose(3) {
+			case 1:
+				c10TwoStructs(c)
+				return
+			case 2:
+				c10Unexported(c)
+				return
+			}
 		}
 		si := c.Choose(len(c10Slices))
 		owner := c.Choose(3)
@@ -325,4 +331,54 @@ func c10TwoStructs(c *explore.Ctx) {
 	if got != want || opts.First.Y != wantY || !sameStrings(opts.Second.Rest, wantRest) || len(rest) != 0 {
 		c.Fail("positional|two-structs", map[string]interface{}{"want": fmt.Sprint(want[0], wantY, want[2], wantRest), "got": fmt.Sprint(opts.First.X, opts.First.Y, opts.Second.Z, opts.Second.Rest), "rest": rest})
 	}
+}
+
+// c10Unexported: a positional-args struct with an unexported field between two exported ones. The library cannot set it;
+// it must not crash on it either, and the exported fields bind in declaration order.
+func c10Unexported(c *explore.Ctx) {
+	var opts struct {
+		Args struct {
+			A string
+			b string
+			C string
+		} `positional-args:"yes"`
+	}
+	_ = opts.Args.b
+	toks := []string{"1", "2", "3"}
+	n := c.Choose(4)
+	argv := toks[:n]
+	c.Describe(func() interface{} {
+		return map[string]interface{}{"declaration": "positional-args struct {A string; b string (unexported); C string}", "argv": argv}
+	})
+	p := flags.NewParser(&opts, flags.None)
+	var rest []string
+	var err error
+	func() {
+		defer func() {
+			if r := recover(); r != nil {
+				c.Fail("panic|"+explore.PanicSite(), map[string]interface{}{"panic": fmt.Sprint(r), "note": "positional-args struct with an unexported field"})
+			}
+		}()
+		rest, err = p.ParseArgs(argv)
+	}()
+	if c.Failed() {
+		return
+	}
+	c.Hit("unexported-positional-field")
+	want := []string{"", "", ""}
+	copy(want, argv)
+	if err != nil {
+		c.Fail("valid-vector-rejected|"+errType(err), fmt.Sprint(err))
+		return
+	}
+	if opts.Args.A != want[0] || opts.Args.C != want[1] || len(rest) != len(argv)-min2(len(argv), 2) {
+		c.Fail("positional|unexported-field-between", map[string]interface{}{"A": opts.Args.A, "C": opts.Args.C, "rest": rest})
+	}
+}
+
+func min2(a, b int) int {
+	if a < b {
+		return a
+	}
+	return b
 }
